@@ -144,7 +144,7 @@ def step (st : St) (args : List String) : St × String × String :=
       else if op == "poll" then dup ({ s := Sub.poll s (decStr id) }, "ok")
       else if op == "eof" then dup ({ s := Sub.eof s (decStr id) }, "ok")
       else if op == "expire" then dup ({ s := Sub.expire s }, "ok")
-      else if op == "view" then dup (st, "ok")
+      else if op == "view" || op == "view!" then dup (st, "ok")
       else dup (st, "bad-op")
   | ["gate", id, g] =>
       if (findSub s (decStr id)).isNone then dup (st, "no-such-subscriber")
